@@ -62,7 +62,8 @@ fn meta_universe() -> Univ {
 }
 
 fn universe() -> Univ {
-    let hosts = ["a.b", "b.a.b", "ab.b", "a.b.a.b", "ba.b", "a.b.b"];
+    // (the last two extend the final label of a rule host that occurs only once in them)
+    let hosts = ["a.b", "b.a.b", "ab.b", "a.b.a.b", "ba.b", "a.b.b", "a.bb", "a.ba.a"];
     let paths = ["/", "/a", "/a/b", "/ab.a", "/b?a=b", "/a.b/a", "/a/", "/b/a.b", "/a-b", "/b^a"];
     let mut reqs = vec![];
     for sch in ["http", "https", "ws"] {
@@ -522,7 +523,12 @@ fn random(ctx: &mut Ctx) {
                 let inst = instantiate(&mut r, &body);
                 let mut path = String::new();
                 if host_anchored && r.chance(2, 3) {
-                    host = match r.below(6) {
+                    host = match r.below(8) {
+                        5 => format!("{}3.example.com", rhost),
+                        6 => format!("{}x.{}", rhost, r.ps(&["com", "net"])),
+                        // the rule host in the middle, extended by a letter, behind a first label of
+                        // exactly its own length (so that host[len(rule host)] is a dot)
+                        7 => format!("{}.{}y.com", "p".repeat(rhost.len()), rhost),
                         0 => format!("sub.{}", rhost),
                         1 => format!("x{}", rhost),
                         2 => format!("{}.evil.com", rhost),
